@@ -417,3 +417,7 @@ V('h-argmax-inverted', H, "if (max_val <= *from)", "if (max_val >= *from)", ['C0
 V('h-argmax-skips-last', H, "        while (from != to)\n        {\n            if (max_val <= *from)", "        while (from + 1 != to)\n        {\n            if (max_val <= *from)", ['C01'])
 # (swapping the pair's components does not compile: not a variant)
 V('h-silent-argmax-strict', H, "if (max_val <= *from)", "if (max_val < *from)", ['C01'], expect='silent')
+
+# ---------------------------------------------------------------- renamed private helpers must stay silent
+V2('u-silent-rename-helpers', [(U, 'scan_deep', '_leaves', 4), (U, 'scan(', '_structure(', 5)], ['C06', 'C03', 'C04', 'C14'], expect='silent')
+V('x-silent-rename-failed', PYX, 'failed()', 'placeholder()', ['C02', 'C09', 'C10', 'C11', 'C19'], expect='silent', count=3)
